@@ -287,6 +287,7 @@ impl Prop for C10 {
         let ops = install(cfg);
         let name = format!("{}{}", cfg, stage);
         for i in a..b {
+            out.idx = Some(i);
             let s = strings.get(i);
             check_tokens(&s, &ops, &name, out);
             if i % 50_021 == 11 {
